@@ -7,7 +7,7 @@ HERE = os.path.dirname(os.path.dirname(os.path.abspath(__file__)))
 CHECKS = {
  "C12": ("proof", "table/constant agreement with vendored oracles + injectivity over the type-checked literals (go/types), SSA shape checks of invert/GetInfo; who-may-write check on the package-level tables (directly, through Info field aliases, through parameter-writing helpers)",
          "Exhaustive comparison of every row of the five syscall table literals, the audit constants, the Info literals and the alias map, as evaluated by the Go type checker, with independent oracle tables; proof relative to those oracle files.",
-         "Trusted: go/types constant evaluation, go/ssa, /verif/oracle/oracle.json (x/sys v0.19.0, GOROOT syscall tables, /usr/include UAPI headers). Rows no oracle lists are counted, not compared.",
+         "Trusted: go/types constant evaluation, go/ssa, /verif/oracle/oracle.json (x/sys v0.19.0, v0.29.0, v0.48.0, GOROOT syscall tables, /usr/include UAPI headers). Rows no oracle lists are counted, not compared.",
          "DESIGN.md section 4, C12"),
  "C19": ("proof", "per-target constant evaluation (go/types under all 49 GOOS/GOARCH of `go tool dist list`), build-constraint file selection (also: every function the compiler entry points reach is declared in a file all targets build), AST check of the stubs, dominance check of GetInfo / Policy.Assemble",
          "Every constant the library exposes is evaluated by the type checker under every distribution target and compared with the vendored UAPI values; stubs are shown call-free; the unsupported-architecture path is a dominance fact. Exhaustive over the finite target list.",
@@ -17,7 +17,7 @@ CHECKS = {
          "Decides the name-table and key-agreement clauses (necessary conditions of the round trip); the behaviour of go-ucfg / yaml.v2 on concrete documents is third-party run-time behaviour and is not claimed.",
          "Trusted: go/types, go/ssa, tag-key conventions of go-ucfg, yaml.v2 and encoding/json. go-ucfg numeric validators (required/nonzero/positive/min/max) as in v0.8. Not covered: number widths, validators on non-numeric fields, concrete documents.",
          "DESIGN.md section 4, C14"),
- "C08": ("other", "SSA value-flow chain followed backwards from the installation call through helper functions: seccomp(2) arg 3 <- SockFprog{Len: len(S), Filter: &S[0]} <- S = element-wise conversion (counted-loop abstraction: every index once, unconditional body, field-for-field) of exactly the slice returned by bpf.Assemble <- Policy.Assemble of filter.Policy; wrapper parameters reach the raw syscall through conversions only; when LoadFilter is split into helpers/closures the same chain is decided on the loader's event traces (engine E8: path enumeration with fallible-call forks and path-specific value following); plus `requires`: the rules of C01-C06 (the compiled program's decisions) are run on the same loaded program and a violation of any of them is reported as a violation of C08",
+ "C08": ("other", "SSA value-flow chain followed backwards from the installation call through helper functions: seccomp(2) arg 3 <- SockFprog{Len: len(S), Filter: &S[0]} <- S = element-wise conversion (counted-loop abstraction: every index once, unconditional body, field-for-field) of exactly the slice returned by bpf.Assemble <- Policy.Assemble of filter.Policy; wrapper parameters reach the raw syscall through conversions only; when LoadFilter is split into helpers/closures the same chain is decided on the loader's event traces (engine E8: path enumeration with fallible-call forks and path-specific value following); plus `requires`: the rules of C01-C06 (the compiled program's decisions) and of C09 (nil only if the filter is in force) are run on the same loaded program and a violation of any of them is reported as a violation of C08",
          "Program-identity clause only (second sentence of the property). The kernel's decisions after the load are run-time behaviour: not applicable to static analysis and not claimed.",
          "Trusted: go/ssa, SYS_SECCOMP oracle, bpf.Assemble maps one instruction to one raw instruction.",
          "DESIGN.md section 4, C08"),
@@ -37,7 +37,7 @@ CHECKS = {
          "All paths through main, including each failure edge; that the target observes exactly the policy's decisions is C01-C08 plus the kernel and is not claimed.",
          "Trusted: go/ssa, os.Exit/log.Fatal do not return, enumerated process-start functions of os/exec, os, syscall.",
          "DESIGN.md section 4, C15"),
- "C16": ("other", "panic-site obligations (gc prove pass BCE listing joined to SSA + SSA scan + nil-dereference guards), loop-form/recursion classification for termination, scanner-error and error-branch discipline, dominance/phi-edge rules for the instruction window, append-only result, name-from-table under `found`",
+ "C16": ("other", "panic-site obligations (gc prove pass BCE listing joined to SSA + SSA scan + nil-dereference guards), loop-form/recursion classification for termination, scanner-error and error-branch discipline, dominance/phi-edge rules for the instruction window, append-only result, name-from-table under `found`, reported number unchanged after the lookup",
          "Covers every function of the disasm package on all paths (any text); necessary structural conditions for each clause of the statement.",
          "Trusted: go/ssa, the compiler's prove pass (compiles, never runs), listed std functions do not panic on any string; API root pointer parameters assumed non-nil.",
          "DESIGN.md section 4, C16"),
@@ -53,7 +53,7 @@ CHECKS = {
          "All reachable code on all paths: no write can touch caller-owned or package-level memory (one whitelisted cell), no order-sensitive map iteration; determinism, input immutability and race-freedom for distinct policy values follow.",
          "Trusted: go/ssa; the points-to analysis is a field- and context-insensitive over-approximation with explicit summaries for builtins, sort/slices mutators and read-only packages; an unsummarised call receiving caller/global memory fails the check.",
          "DESIGN.md section 4, C13"),
- "C01": ("other", "emitter automaton (E1): path-sensitive event automaton of the code generator over go/ssa, label resolution, whole-program object graph with symbolic fragment lengths; spine reachability along no-match edges, entry/action edge rules, accumulator typing, value-origin of the compared number, return-builder contract",
+ "C01": ("other; plus `requires`: the rules of C06 (the patcher keeps the label-level meaning at every size) are run on the same loaded program and a violation is reported as a violation of this property", "emitter automaton (E1): path-sensitive event automaton of the code generator over go/ssa, label resolution, whole-program object graph with symbolic fragment lengths; spine reachability along no-match edges, entry/action edge rules, accumulator typing, value-origin of the compared number, return-builder contract; effect analysis: compiling writes no memory reachable from the policy",
          "A complete argument on the schema of all label-level programs (every policy maps into the analysed graph): first matching group else default, errno carries EPERM. Stated at label level; equality with emitted lists above 255 instructions is C06 (necessary conditions only), which is why the level is `other` and not `proof`.",
          "Trusted: go/ssa, cBPF semantics, syscall tables (C12), the E1 engine itself. Conservative: a construct the automaton does not model fails the check.",
          "DESIGN.md sections 2.2 and 4, C01"),
@@ -65,19 +65,19 @@ CHECKS = {
          "All policies at label level: AND within a list, OR across lists, and no comparison against a syscall number with an argument word in the accumulator (the statement's last sentence).",
          "Trusted: go/ssa, cBPF semantics, C02 for the meaning of one condition. Label level (C06).",
          "DESIGN.md section 4, C03"),
- "C04": ("other", "E1 whole-program graph per variant (x86_64/other x short/long arch jump): position + 1 + skip evaluated as a linear form over symbolic fragment lengths, suffix query on the layout automaton, edge rules for the arch compare and the x32 guard, accumulator typing",
+ "C04": ("other; plus `requires`: the rules of C06 (the patcher keeps the label-level meaning at every size) are run on the same loaded program and a violation is reported as a violation of this property", "E1 whole-program graph per variant (x86_64/other x short/long arch jump): position + 1 + skip evaluated as a linear form over symbolic fragment lengths, suffix query on the layout automaton, edge rules for the arch compare and the x32 guard, accumulator typing",
          "Complete at label level for both jump encodings and every program size (the distance to the end is shown constant); `other` because the label-to-emitted step above 255 instructions is C06.",
          "Trusted: go/ssa, cBPF semantics (unsigned jge), UAPI constants (oracle), arch.X32 literal (C12).",
          "DESIGN.md section 4, C04"),
- "C05": ("other", "E1: instruction-kind whitelist and load-offset forms over every emitted literal instance, label typestate (created, bound once on every path, not used after bound, followed by an instruction), successor/tail/underflow queries per variant, closed return set, patcher bridge kinds; E2.narrow: every narrowing integer conversion exact, guarded or listed with a reason",
+ "C05": ("other; plus `requires`: the rules of C06 (the patcher keeps the label-level meaning at every size) are run on the same loaded program and a violation is reported as a violation of this property", "E1: instruction-kind whitelist and load-offset forms over every emitted literal instance, label typestate (created, bound once on every path, not used after bound, followed by an instruction), successor/tail/underflow queries per variant, closed return set, patcher bridge kinds; E2.narrow: every narrowing integer conversion exact, guarded or listed with a reason",
          "The verifier's documented conditions decided on the label-level schema; kernel acceptance of patched programs above 255 instructions depends on C06; the 4096 bound is not analysed.",
          "Trusted: go/ssa, documented bpf_check_classic / seccomp_check_filter conditions, x/net/bpf encoding of the four kinds.",
          "DESIGN.md section 4, C05"),
- "C06": ("other", "affine-dimension (point/vector) typing of Index arithmetic, coverage of every Index-typed storage cell by updateIndices, recognised insertion idioms, anchor rule, affine back-to-front traversal, quiescence before the 8-bit conversion, stale-skip and stale-position (no Index value survives a call that can insert) rules over the patcher's SSA, bridge-kind and bridge-skip origin rules",
+ "C06": ("other", "affine-dimension (point/vector) typing of Index arithmetic, coverage of every Index-typed storage cell by updateIndices, recognised insertion idioms, anchor rule, affine back-to-front traversal, quiescence before the 8-bit conversion, stale-skip and stale-position (no Index value survives a call that can insert) rules over the patcher's SSA, bridge-kind and bridge-skip origin rules; width of the exported position types",
          "Necessary conditions only (each one the reason of a real or seeded defect): full behavioural equivalence of the patcher is an inductive invariant over mutable state and is NOT claimed.",
          "Trusted: go/ssa, cBPF jump semantics. A sufficient discipline is recognised for the order rule, so a differently organised correct patcher could be reported (stated conservatism).",
          "DESIGN.md section 4, C06"),
- "C07": ("other", "dominance and guard-shape rules for every listed rejection (resolved on value origins), nil-on-error over the compile call graph, sibling agreement of four operation tables (constants, Operations, validated set, lowered set from the E1 automaton), unreachability of the patcher's own errors at label level, enumeration of panic sites (gc prove pass listing + SSA scan + nil guards)",
+ "C07": ("other", "dominance and guard-shape rules for every listed rejection (resolved on value origins), nil-on-error over the compile call graph, sibling agreement of four operation tables (constants, Operations, validated set, lowered set from the E1 automaton), unreachability of the patcher's own errors at label level, enumeration of panic sites (gc prove pass listing + SSA scan + nil guards); every listed name ends in entry, merge or problem; the validated group is the policy's own group",
          "Every listed defect class is rejected before emission with (nil, error) on all paths; nothing is silently dropped; panics inside the patcher's index arithmetic are assumed under C06, not proved.",
          "Trusted: go/ssa dominators, gc prove pass, E1 engine.",
          "DESIGN.md section 4, C07"),
